@@ -56,7 +56,7 @@ def program(depth: int, kinds: list, shield: bool, external: bool, grid: list = 
         s1 = S.pick(g, "s1") if not body else 0
         s2 = (S.pick(g[1:], "s2") if shield else None) if not body else None
         s3 = S.pick(g, "s3") if not body else 0
-        alphabet = ["sleep0", "sleep1", "shyield", "shsleep"] + [f"cancel{j}" for j in range(depth)]
+        alphabet = ["sleep0", "sleep1", "shyield", "shsleep", "shfail"] + [f"cancel{j}" for j in range(depth)]
         stmts = [S.pick(alphabet, f"st{q}") for q in range(body)]
         x = S.pick([None] + g, "x") if external else None
         with loop_context() as loop:
@@ -76,6 +76,19 @@ def program(depth: int, kinds: list, shield: bool, external: bool, grid: list = 
                 await be.sleep(dur)
                 rec[2] = loop.time()
                 rec[6] = st["n"]
+
+            async def failing(label, inside):
+                # waits on a future that ends up FAILING with an ordinary exception (a different exit of the shielded await loop
+                # than a coroutine that raises by itself)
+                fut = loop.create_future()
+                loop.call_later(1, fut.set_exception, ValueError("boom"))
+                rec = [label, loop.time(), None, True, inside, st["n"], None]
+                log.append(rec)
+                try:
+                    await fut
+                finally:
+                    rec[2] = loop.time()
+                    rec[6] = st["n"]
 
             async def level(i):
                 kind, d = specs[i]
@@ -106,6 +119,12 @@ def program(depth: int, kinds: list, shield: bool, external: bool, grid: list = 
                                     await be.cancel_shielded_coro_yield()
                                 elif stx == "shsleep":
                                     await be.ignore_cancellation(nap(f"b{q}", 1, depth, shielded=True))
+                                elif stx == "shfail":
+                                    # a shielded coroutine that waits and then fails with an ordinary exception (handled by the caller)
+                                    try:
+                                        await be.ignore_cancellation(failing(f"b{q}", depth))
+                                    except ValueError:
+                                        pass
                                 else:
                                     scopes[int(stx[6:])].cancel()
                         else:
@@ -248,4 +267,7 @@ def shards(tier: str):
     for ks in (["never"], ["never", "never"], ["never", "never", "never"], ["move_on", "never"], ["never", "timeout"]):
         nb = 3 if (quick or len(ks) == 3) else 4
         add(f"stmts/{'-'.join(ks)}/b{nb}", dict(depth=len(ks), kinds=ks, shield=False, external=False, grid=[1, 3], body=nb), cost=(4 + len(ks)) ** nb)
+    # ... and with an external task.cancel() landing somewhere in the body (it must always get through un-cancelled scopes)
+    for ks in (["never"], ["never", "never"]):
+        add(f"stmts-ext/{'-'.join(ks)}/b3", dict(depth=len(ks), kinds=ks, shield=False, external=True, grid=[0, 1, 2], body=3), cost=(5 + len(ks)) ** 3 * 4)
     return out
